@@ -21,7 +21,10 @@ EXTRA = [
     ("stochastic", {"p_h": 1.0, "p_h_stoch": 1.0, "T": [2, 3]}),
     ("discrete-only", {"p_w": 0.0, "p_z": 0.0, "p_h": 1.0}),
     ("inexact", {"inexact": True}),
-    ("two-continuous-states", {"p_w": 1.0, "p_z": 1.0}),
+    ("two-continuous-states", {"p_w": 1.0, "p_z": 1.0, "sizes": {"w": 5}, "max_cells": 2500}),
+    ("two-continuous-states, second longer", {"p_w": 1.0, "p_z": 1.0, "sizes": {"w": 3, "z": 5}, "max_cells": 2500}),
+    ("log-grid", {"p_log": 1.0, "p_w": 1.0, "p_z": 0.0}),
+    ("several filters", {"p_r": 1.0, "p_choice_filter": 1.0, "p_state_filter": 0.5, "p_q": 0.4}),
 ]
 PROFILES = LATTICE + EXTRA
 
@@ -42,18 +45,19 @@ def make_specs(ctx: Ctx, n):
         label, prof = PROFILES[i % len(PROFILES)]
         m = gen.rand_model(rng, prof)
         na = rng.choice([1, 2, 4, 8])
-        init = qinit(gen.rand_initial_states(rng, m, na))
+        int_init = i % 4 == 3
+        init = qinit(gen.rand_initial_states(rng, m, na, integer=int_init))
         mode = i % 3
         if mode == 0:      # value arrays produced by solve and handed to the simulate target
-            plan = [{"op": "simulate", "target": "simulate", "init": init, "seed": rng.randrange(10**6), "vsrc": "given"}]
+            plan = [{"op": "simulate", "target": "simulate", "init": init, "seed": rng.randrange(10**6), "vsrc": "given", "int_init": int_init}]
             kind = "arrays from solve"
         elif mode == 1:    # the combined target: arrays in use = the model's solution
-            plan = [{"op": "simulate", "target": "solve_and_simulate", "init": init, "seed": rng.randrange(10**6), "vsrc": "own"}]
+            plan = [{"op": "simulate", "target": "solve_and_simulate", "init": init, "seed": rng.randrange(10**6), "vsrc": "own", "int_init": int_init}]
             kind = "solve_and_simulate"
         else:              # arbitrary arrays of the right shape
             arb = _arbitrary(rng, m)
             plan = [{"op": "simulate", "target": "simulate", "init": init, "seed": rng.randrange(10**6), "vsrc": "given",
-                     "arbitrary": arb}]
+                     "arbitrary": arb, "int_init": int_init}]
             kind = "arbitrary arrays"
         specs.append(mk_spec(i, m, ["c02"], plan, label=f"{label}; {kind}"))
     return specs
